@@ -42,6 +42,9 @@ pub mod encoding;
 
 pub(crate) mod blocks;
 
+#[cfg(ruzstd_verif)]
+pub mod verif_hooks;
+
 #[cfg(feature = "fuzz_exports")]
 pub mod fse;
 #[cfg(feature = "fuzz_exports")]
